@@ -145,12 +145,12 @@ func Alphabet(thorough bool) []Op {
 		)
 	}
 	// the same statements at the bottom of a nested block
-	nest := map[string][]string{"tmp-ins1": {"if"}, "tmp-upd-all": {"while"}, "in-ins": {"func"}, "tmp-rep1": {"while"}, "t-ins1": {"func"}, "tmp-add": {"if"}}
+	nest := map[string][]string{"tmp-ins1": {"if", "commit"}, "tmp-upd-all": {"while"}, "in-ins": {"func"}, "in-upd": {"commit"}, "in-del": {"commit"}, "tmp-rep1": {"while"}, "t-ins1": {"func", "commit"}, "tmp-add": {"if"}}
 	if thorough {
 		nest = map[string][]string{}
 		for _, o := range ops {
 			if strings.HasPrefix(o.ID(), "tmp-") || strings.HasPrefix(o.ID(), "in-") {
-				nest[o.ID()] = []string{"if", "while", "func"}
+				nest[o.ID()] = []string{"if", "while", "func", "commit"}
 			}
 		}
 		nest["t-ins1"] = []string{"func"}
